@@ -128,6 +128,9 @@ C["C19"]["crates"] = ["core", "real"]
 C["C18"]["timeout"] = {"quick": 600, "thorough": 3600}
 C["C13"]["timeout"] = {"quick": 600, "thorough": 3600}
 C["C07"]["timeout"] = {"quick": 600, "thorough": 3600}
+# the slowest quick queries of C02 / C12 take 5-9.5 min depending on machine load: a 10 min cap would be too close
+C["C02"]["timeout"] = {"quick": 1500, "thorough": 1800}
+C["C12"]["timeout"] = {"quick": 1500, "thorough": 1800}
 json.dump(C, open(os.path.join(V, "runner", "checks.json"), "w"), indent=1)
 json.dump([], open(os.path.join(V, "runner", "not_applicable.json"), "w"), indent=1)
 print(len(C), "checks")
